@@ -84,6 +84,9 @@ func c17Scenarios(tier core.Tier) []scenario {
 	for _, w := range []string{"1", "2", "3"} {
 		out = append(out, scenario{Name: "c17.w" + w, Universe: "U-3way-honest-w" + w, Depth: 6 + d, Orcs: orcs,
 			Menu: chain.Menu{Recv: true, Sync: true, WalkAll: true, Play: true, Mine: 1, Restart: true, Blocks: []string{"a1", "a2", "a3", "b1", "b2", "b3", "d2"}}})
+		// the miner's own way back: walk + ledger truncation (truncateForMiner), then a block through PlayForMiner
+		out = append(out, scenario{Name: "c17.trunc.w" + w, Universe: "U-3way-honest-w" + w, Depth: 6 + d, Orcs: orcs,
+			Menu: chain.Menu{Recv: true, Sync: true, Truncate: true, Mine: 2, Restart: true, Blocks: []string{"a1", "a2", "a3", "b1"}}})
 	}
 	// walks that stop part-way: a block the ledger took and the state machine
 	// refuses (dup3 on a2, bv2 and cc2 on a1) in the middle of the range being synced
